@@ -132,6 +132,10 @@ func (r *RigS) onRegistration(st *SimStream) {
 		r.s.Probe("stream_owner_unknown")
 		return
 	}
+	if !st.SeekNil && st.SeekCh != "" && st.SeekCh != st.PCh && !strings.HasPrefix(st.SeekCh, st.PCh+"_") {
+		// the stream of one source channel is opened with the position of another one
+		r.s.Violate("C05", "seek_position_of_other_channel", "stream %s of task %s (source channel %s) is registered with a seek position that names channel %s (msg id %d)", st.Key(), owner, st.PCh, st.SeekCh, st.SeekSeq)
+	}
 	key := domainKey(owner, tgt, st.Coll, st.Shard)
 	r.mu.Lock()
 	r.delivered[fmt.Sprintf("%d|%d|%d", tgt, st.Coll, st.Shard)] = -1
@@ -164,6 +168,7 @@ func (r *RigS) onRegistration(st *SimStream) {
 		}
 	}
 	var skipped, byTime []int64
+	skippedForwarded := true
 	for i, e := range log {
 		if i < from || (e.Kind != "ins" && e.Kind != "del") || e.Coll != st.Coll || e.Shard != st.Shard {
 			continue
@@ -174,12 +179,19 @@ func (r *RigS) onRegistration(st *SimStream) {
 					byTime = append(byTime, e.Tag)
 				} else {
 					skipped = append(skipped, e.Tag)
+					skippedForwarded = skippedForwarded && r.tookForwardPath(st.Coll, st.PCh, e.Seq)
 				}
 			}
 		}
 	}
 	if len(skipped) > 0 {
-		r.s.Violate("C05", "resume_skips_unacked", "stream %s of task %s registered at msg id %d / ts %d skips messages (tags %v) that the downstream never acknowledged", st.Key(), owner, st.SeekSeq, st.SeekTs, skipped)
+		cls := ""
+		if skippedForwarded {
+			// the persisted checkpoint had passed messages that travelled in forwarded packs (KF forwarded-pack-overtaken)
+			cls = "_forwarded_pack_overtaken"
+			r.st.Overtaken[key] = append(r.st.Overtaken[key], skipped...)
+		}
+		r.s.Violate("C05", "resume_skips_unacked"+cls, "stream %s of task %s registered at msg id %d / ts %d skips messages (tags %v) that the downstream never acknowledged", st.Key(), owner, st.SeekSeq, st.SeekTs, skipped)
 	}
 	if len(byTime) > 0 {
 		// the messages lie after the checkpoint's message id and are dropped by the time filter of the seek. The pinned design
@@ -222,6 +234,36 @@ func (r *RigS) consequenceOfTimeSkip(key string, tags []int64) bool {
 	return true
 }
 
+// tookForwardPath: the message with this id on the source pchannel was part of a pack that the reader handed to another
+// channel handler (observed through hook H15).
+func (r *RigS) tookForwardPath(coll int64, pch string, seq int) bool {
+	for _, rg := range r.st.Forwarded[fmt.Sprintf("%d|%s", coll, pch)] {
+		if seq > rg[0] && seq <= rg[1] {
+			return true
+		}
+	}
+	return false
+}
+
+// consequenceOfOvertaking: every tag is one whose forwarded pack the checkpoint of its source channel had passed.
+func (r *RigS) consequenceOfOvertaking(key string, tags []int64) bool {
+	if len(tags) == 0 || len(r.st.Overtaken[key]) == 0 {
+		return false
+	}
+	for _, t := range tags {
+		found := false
+		for _, x := range r.st.Overtaken[key] {
+			if x == t {
+				found = true
+			}
+		}
+		if !found {
+			return false
+		}
+	}
+	return true
+}
+
 func (r *RigS) droppedAtSource(coll int64) bool {
 	for _, lg := range r.mq.Logs {
 		for _, e := range lg {
@@ -231,6 +273,57 @@ func (r *RigS) droppedAtSource(coll int64) bool {
 		}
 	}
 	return false
+}
+
+// leakedRegistration: a stream of this (downstream, collection, shard) completed its registration while a successful
+// pause / delete of its task was in progress (KF registration-in-flight-at-stop): that stream is not stopped, keeps delivering
+// and its packs are written once the task runs again.
+func (r *RigS) leakedRegistration(owner string, tgt int, coll int64, shard int) bool {
+	for _, st := range r.mq.All {
+		if st.Coll != coll || st.Shard != shard || st.PCh == replicateChan || r.targetOfStream(st) != tgt {
+			continue
+		}
+		for _, rec := range r.st.OpLog {
+			if (rec.K == "pause" || rec.K == "delete") && rec.Task == owner && rec.Code == 200 && rec.Inc == r.plan.Incarnation && st.RegStep >= rec.Issued && st.RegStep <= rec.Step {
+				return true
+			}
+		}
+	}
+	return false
+}
+
+// ackTrace / srcTrace: compact histories for violation reports.
+func (r *RigS) ackTrace(tgt int, coll int64, shard int) string {
+	c := r.collByID[coll]
+	if c == nil {
+		return "?"
+	}
+	var sb strings.Builder
+	for _, a := range r.st.SDK[tgt].Acks {
+		if !strings.HasSuffix(a.Channel, fmt.Sprintf("_%d", shard)) {
+			continue
+		}
+		var tags []int64
+		for _, m := range a.Msgs {
+			if (m.Type == "ins" || m.Type == "del") && m.Name == c.Name {
+				tags = append(tags, m.Tag)
+			}
+		}
+		if len(tags) > 0 {
+			fmt.Fprintf(&sb, "[inc%d step%d end=%d tags=%v]", a.Inc, a.Step, a.EndSeq, tags)
+		}
+	}
+	return sb.String()
+}
+
+func (r *RigS) srcTrace(coll int64, shard, from int) string {
+	var sb strings.Builder
+	for i, e := range r.mq.Logs[srcPCh(shard)] {
+		if i >= from && (e.Kind == "ins" || e.Kind == "del") && e.Coll == coll && e.Shard == shard {
+			fmt.Fprintf(&sb, "[id=%d tag=%d]", e.Seq, e.Tag)
+		}
+	}
+	return sb.String()
 }
 
 func domainKey(task string, tgt int, coll int64, shard int) string {
@@ -363,8 +456,7 @@ func (r *RigS) checkCheckpoints() {
 				continue
 			}
 			seq := MsgIDToSeq(pi.DataPair.Data)
-			shard := -1
-			fmt.Sscanf(strings.TrimPrefix(pch, "by-dev-rootcoord-dml_"), "%d", &shard)
+			shard := shardOfSrcPCh(pch)
 			if shard < 0 || seq < 0 {
 				continue
 			}
@@ -375,6 +467,7 @@ func (r *RigS) checkCheckpoints() {
 			}
 			log := r.mq.Logs[pch]
 			var un []int64
+			unForwarded := true
 			for i := from; i < len(log); i++ {
 				e := log[i]
 				if e.Seq > seq {
@@ -383,6 +476,7 @@ func (r *RigS) checkCheckpoints() {
 				if (e.Kind == "ins" || e.Kind == "del") && e.Coll == p.CollectionID && e.Shard == shard {
 					if _, ok := set[e.Tag]; !ok {
 						un = append(un, e.Tag)
+						unForwarded = unForwarded && r.tookForwardPath(p.CollectionID, pch, e.Seq)
 					}
 				}
 			}
@@ -393,13 +487,22 @@ func (r *RigS) checkCheckpoints() {
 			}
 			if len(un) > 0 {
 				cls := ""
+				if r.leakedRegistration(p.TaskID, tgt, p.CollectionID, shard) {
+					cls = "_registration_in_flight_at_stop"
+				}
 				if r.st.StaleAck[fmt.Sprintf("%d|%d|%d", tgt, p.CollectionID, shard)] {
 					cls = "_stale_pack_after_resume"
 				}
 				if r.consequenceOfTimeSkip(key, un) {
 					cls = "_after_restamped_time_skip"
 				}
-				r.s.Violate("C05", "checkpoint_ahead"+cls, "persisted checkpoint of task %s collection %d on %s is msg id %d but messages %v up to it were never acknowledged by the downstream", p.TaskID, p.CollectionID, pch, seq, un)
+				if cls == "" && unForwarded {
+					// every unacknowledged message travelled in a forwarded pack (on another downstream channel), while later
+					// packs of the same source stream were acknowledged on the handler's own channel
+					cls = "_forwarded_pack_overtaken"
+					r.st.Overtaken[key] = append(r.st.Overtaken[key], un...)
+				}
+				r.s.Violate("C05", "checkpoint_ahead"+cls, "persisted checkpoint of task %s collection %d on %s is msg id %d but messages %v up to it were never acknowledged by the downstream (acknowledged packs with data of that collection so far: %s; source: %s; record: %s)", p.TaskID, p.CollectionID, pch, seq, un, r.ackTrace(tgt, p.CollectionID, shard), r.srcTrace(p.CollectionID, shard, from), canon)
 			}
 		}
 	}
@@ -634,7 +737,9 @@ func (r *RigS) checkReload(tasks map[string]*meta.TaskInfo, sn server.VerifSnaps
 		if ti.DisableAutoStart {
 			want = "Paused"
 		}
-		if mem.State == "Paused" && want == "Running" && strings.HasPrefix(mem.Reason, "fail to read the message") {
+		if mem.State == "Paused" && want == "Running" && (strings.HasPrefix(mem.Reason, "fail to read the message") || strings.Contains(mem.Reason, "context canceled")) {
+			// (the second form: the reader gave up, the task was torn down, and an event that was being applied at that
+			// moment failed with the cancelled context and set the reason last)
 			// started, then stopped itself: the downstream was slower than the reader's retry budget (scheduler's choice)
 			r.s.Probe("task_paused_itself")
 		} else if mem.State != want && !r.targetFaulted() {
@@ -1063,7 +1168,12 @@ func (r *RigS) finalOracles() {
 		}
 		s.Probe("rejected_write_checked")
 		if ti.State != meta.TaskStatePaused || ti.Reason == "" {
-			s.Violate("C06", "failing_task_not_paused"+r.classOf(tasks, rej.Task), "the downstream rejected a write of task %s at step %d, but the task ends %s (reason %q)", rej.Task, rej.Step, ti.State.String(), ti.Reason)
+			cls := r.classOf(tasks, rej.Task)
+			if mem, have := sn.Tasks[rej.Task]; cls == "" && ok && have && mem.State == "Paused" && mem.Reason != "" && r.storeFaultsNow() > 0 {
+				// the task did stop, but the store refused the state update too: Paused in memory only (known finding of C11)
+				cls = "_failure_pause_not_persisted"
+			}
+			s.Violate("C06", "failing_task_not_paused"+cls, "the downstream rejected a write of task %s at step %d, but the task ends %s (reason %q)", rej.Task, rej.Step, ti.State.String(), ti.Reason)
 		}
 	}
 	// first acknowledgements arrive in source order without gaps (a failing message is never skipped), and
@@ -1091,11 +1201,17 @@ func (r *RigS) finalOracles() {
 		for i := 1; i < len(es) && !r.droppedAtSource(coll); i++ {
 			if es[i].ok && (!es[i-1].ok || es[i-1].clock > es[i].clock) {
 				cls := ""
+				if r.leakedRegistration(dtask, tgt, coll, shard) {
+					cls = "_registration_in_flight_at_stop"
+				}
 				if r.st.StaleAck[fmt.Sprintf("%d|%d|%d", tgt, coll, shard)] {
 					cls = "_stale_pack_after_resume"
 				}
 				if !es[i-1].ok && r.consequenceOfTimeSkip(key, []int64{es[i-1].tag}) {
 					cls = "_after_restamped_time_skip"
+				}
+				if !es[i-1].ok && r.consequenceOfOvertaking(key, []int64{es[i-1].tag}) {
+					cls = "_forwarded_pack_overtaken"
 				}
 				s.Violate("C06", "message_skipped"+cls, "target %d collection %d shard %d: message %d was acknowledged while the earlier message %d was not (yet)", tgt, coll, shard, es[i].tag, es[i-1].tag)
 				break
@@ -1145,7 +1261,12 @@ func (r *RigS) finalOracles() {
 			if r.consequenceOfTimeSkip(key, lost) {
 				cls = "_after_restamped_time_skip"
 			}
+			if r.consequenceOfOvertaking(key, lost) {
+				cls = "_forwarded_pack_overtaken"
+			}
 			s.Violate("C05", "lost_message"+cls, "task %s is running and idle at the end, but messages %v of collection %d shard %d never reached target %d", owner, lost, coll, shard, tgt)
+			// the same observation read as C06: a message that is not delivered while its task stays Running was skipped silently
+			s.Violate("C06", "silently_skipped"+cls, "task %s is Running (store and memory) and idle at the end, no failure is shown, but messages %v of collection %d shard %d never reached target %d", owner, lost, coll, shard, tgt)
 		}
 	}
 }
